@@ -10,6 +10,7 @@ type harnessSpec struct {
 	Steps        int64
 	Conc         int
 	TimeFixed    bool     // time.Now returns a fixed instant
+	TimersMayFire bool    // timers with a finite duration may fire (forked at the select that waits on them)
 	Stall        bool     // a path that exhausts its step budget is a candidate stall, replayed natively under a watchdog
 	Labels       []string // vReach labels that must be reached (vacuity witnesses)
 	Bound        string   // the bound in words (quick)
@@ -275,12 +276,12 @@ func init() {
 		Rule: "Harness in harness/websocket/c15.go: engine threads for one data writer (multi-frame message), 1-2 control senders and an optional closer on one connection; every order of their acquiring operations (c.mu receive/select, writeErrMu, result channels) is a forked schedule decision, reduced by sleep sets; the captured transport writes are parsed by the independent frame parser.",
 		Assumptions: append([]string{
 			"scheduling choices are made before acquiring operations (lock, channel receive, blocking send, select); releasing operations (unlock, non-blocking buffered send) need none; sleep sets prune reorderings of independent operations (operations on different synchronisation objects); both reductions are sound for data-race-free executions and races are reported by the vector-clock detector",
-			"no concurrent reader thread (it shares state with writers only through WriteControl); write deadlines never expire",
+			"no concurrent reader thread (it shares state with writers only through WriteControl); the data writer has no write deadline; a control sender's finite deadline may expire only while it waits for the write lock (the timer is decided when the select first looks at it)",
 			"schedule-dependent counterexamples are reproduced natively by re-running the case under schedule perturbation (up to 400 attempts, -race); a counterexample that does not reproduce is reported as ENGINE-MISMATCH, not as a violation",
 		}, wsAssume...),
 		Harnesses: []harnessSpec{
-			{Pkg: "websocket", Func: "HarnessC15_Concurrent", TimeFixed: true, Race: true, Labels: []string{"concurrent"},
-				Bound:  "client or server; data message of 2-3 symbolic bytes sent through a 15-byte write buffer (3-4 frames) or, as server, 31 bytes in one unbuffered write; 1 ping sender with 0-1 payload bytes; optional close sender; all schedules",
+			{Pkg: "websocket", Func: "HarnessC15_Concurrent", TimeFixed: true, TimersMayFire: true, Race: true, Labels: []string{"concurrent"},
+				Bound:  "client or server; data message of 2 (thorough 2-3) symbolic bytes sent through a 15-byte write buffer (3-4 frames) or, as server, 31 bytes in one unbuffered write; 1 ping sender with a 1-byte (thorough 0-1) payload, without deadline or with a deadline that may expire while it waits for the write lock; optional close sender; all schedules",
 				BoundT: "1-2 control senders (ping, pong)"},
 		},
 	})
